@@ -17,4 +17,5 @@ INVARIANT NoViolation
 INVARIANT AttemptsBounded
 INVARIANT InvokeWithinDeadline
 INVARIANT SleepWithinRemaining
+INVARIANT DeliveriesRelated
 CHECK_DEADLOCK FALSE
